@@ -2,8 +2,17 @@
     the implementation by the harness (1 = holds); the C18 oracle is computed here from the
     templates, the rewrite rules and the feature columns with the models of Model/Rewriter.v and
     Model/Template.v. *)
-From Vib Require Import Model.Base Model.Text Model.Rewriter Model.Template.
+From Vib Require Import Model.Base Model.Text Model.Rewriter Model.Template Model.Float.
 Local Open Scope N_scope.
+
+Record numdata := {
+  nd_sets : list (Z * N * N);          (* merged feature sets in label order: weight bits, left id, right id *)
+  nd_matrix : list (N * N * Z);        (* merged connection weights: right conn id, left conn id, weight bits *)
+  nd_lex : list (N * N * Z);           (* lex.csv rows as emitted: left id, right id, cost *)
+  nd_unk : list (N * N * Z);           (* unk.def rows as emitted *)
+  nd_matrix_lines : list (N * N * Z);  (* matrix.def lines after the header: right, left, cost *)
+  nd_dims : N * N                      (* matrix.def header *)
+}.
 
 Record trncase := {
   tn_id : N;
@@ -13,7 +22,10 @@ Record trncase := {
   (* views (in-memory model; model read back from write_model), each after the user lexicon was read:
      words (lexicon rows, unk.def rows, 0,0,0 user rows) as feature columns + emitted left / right id,
      then bigram.left and bigram.right (row i = id i+1) *)
-  tn_views : list (list (list str * N * N * N) * list (list str) * list (list str))
+  tn_views : list (list (list str * N * N * N) * list (list str) * list (list str));
+  (* numbers of the in-memory model after the user lexicon was read: the freshly merged model
+     (weights as binary64 bit patterns) and the numeric columns of the emitted files *)
+  tn_num : option numdata
 }.
 
 Definition has_prefix (p : str) (f : str * N) : bool := starts_with p (fst f).
@@ -23,7 +35,34 @@ Definition flags_count (p : str) (c : trncase) : nat := length (filter (has_pref
 
 Definition P14 : str := [99;49;52;95]. Definition P15 : str := [99;49;53;95]. Definition P16 : str := [99;49;54;95].
 
-Definition c14_oracle := flags_ok P14. Definition c15_oracle := flags_ok P15. Definition c16_oracle := flags_ok P16.
+(** the cost clause of C14 computed here with exact binary64 arithmetic (Flocq): every emitted cost
+    is  ((-w) * (32767.0 / max|w|)) as i16  of the merged model's weight, ids are the merged
+    model's, matrix.def lists the connection weights in (right, left) order, ids lie inside the
+    header's dimensions *)
+Definition nd_scale (nd : numdata) : f64 :=
+  let ws := map (fun s => f64_abs (f64_of_bits (fst (fst s)))) (nd_sets nd) ++ map (fun m => f64_abs (f64_of_bits (snd m))) (nd_matrix nd) in
+  f64_div (f64_of_Z 32767) (fold_left f64_max ws (f64_of_Z 0)).
+Definition nd_cost (sc : f64) (bits : Z) : Z := f64_to_i16 (f64_mul (f64_neg (f64_of_bits bits)) sc).
+Fixpoint insert_rl (x : N * N * Z) (l : list (N * N * Z)) : list (N * N * Z) :=
+  match l with
+  | [] => [x]
+  | y :: t => if ((fst (fst x) <? fst (fst y)) || ((fst (fst x) =? fst (fst y)) && (snd (fst x) <=? snd (fst y))))%N then x :: l else y :: insert_rl x t
+  end.
+Definition rlz_eqb (a b : N * N * Z) : bool := ((fst (fst a) =? fst (fst b)) && (snd (fst a) =? snd (fst b)))%N && (snd a =? snd b)%Z.
+Definition c14_costs_ok (c : trncase) : bool :=
+  match tn_num c with
+  | None => true
+  | Some nd =>
+      let sc := nd_scale nd in
+      let exp_rows := map (fun s => (snd (fst s), snd s, nd_cost sc (fst (fst s)))) (nd_sets nd) in
+      let nseed := length (nd_lex nd) in
+      list_eqb rlz_eqb (firstn nseed exp_rows) (nd_lex nd)
+      && list_eqb rlz_eqb (firstn (length (nd_unk nd)) (skipn nseed exp_rows)) (nd_unk nd)
+      && list_eqb rlz_eqb (map (fun m => (fst (fst m), snd (fst m), nd_cost sc (snd m))) (fold_right insert_rl [] (nd_matrix nd))) (nd_matrix_lines nd)
+      && forallb (fun r => (fst (fst r) <? snd (nd_dims nd)) && (snd (fst r) <? fst (nd_dims nd)))%N (nd_lex nd ++ nd_unk nd)
+      && forallb (fun r => (fst (fst r) <? fst (nd_dims nd)) && (snd (fst r) <? snd (nd_dims nd)))%N (nd_matrix_lines nd)
+  end.
+Definition c14_oracle (c : trncase) : bool := flags_ok P14 c && c14_costs_ok c. Definition c15_oracle := flags_ok P15. Definition c16_oracle := flags_ok P16.
 (** known finding K7: the trained model has no bigram weight row at all and the first generation
     panics inside rucrf's RawModel::merge *)
 Definition K7FLAG : str := [107;55;95;110;111;95;98;105;103;114;97;109;95;119;101;105;103;104;116;115].
